@@ -47,20 +47,26 @@ theorem fold_no_ws {p k : List Char} (h : p.map toLower = k) (hk : ∀ c ∈ k, 
 
 /-! ## `;base64` is appended before the stripping steps; they do not interact with it -/
 
+theorem endOrSemi_append (r : List Char) : endOrSemi (r ++ semiBase64) = endOrSemi r := by
+  cases r with
+  | nil => decide
+  | cons d t => rfl
+
 theorem stripTextPlain_append (m : List Char) : stripTextPlain (m ++ semiBase64) = stripTextPlain m ++ semiBase64 := by
   unfold stripTextPlain
   by_cases hl : 10 ≤ m.length
   · have h1 : 10 ≤ (m ++ semiBase64).length := by simp; omega
     have h2 : (m ++ semiBase64).take 10 = m.take 10 := by
       rw [List.take_append_of_le_length hl]
-    simp only [hl, h1, h2, true_and]
+    have h3 : (m ++ semiBase64).drop 10 = m.drop 10 ++ semiBase64 := List.drop_append_of_le_length hl
+    simp only [hl, h1, h2, h3, endOrSemi_append, true_and]
     split
-    · rw [List.drop_append_of_le_length hl]
     · rfl
-  · have h3 : ¬(10 ≤ m.length ∧ equalFold (m.take 10) textPlain = true) := fun h => hl h.1
+    · rfl
+  · have h3 : ¬(10 ≤ m.length ∧ equalFold (m.take 10) textPlain = true ∧ endOrSemi (m.drop 10) = true) := fun h => hl h.1
     rw [if_neg h3]
     rw [if_neg]
-    intro ⟨_, hf⟩
+    intro ⟨_, hf, _⟩
     simp only [equalFold, beq_iff_eq] at hf
     have hsemi : ';' ∈ (m ++ semiBase64).take 10 := by
       have : (m ++ semiBase64).take 10 = m ++ semiBase64.take (10 - m.length) := by
@@ -81,10 +87,7 @@ theorem stripCharset_append (m : List Char) : stripCharset (m ++ semiBase64) = s
     · have h1 : 16 ≤ (r ++ semiBase64).length := by simp; omega
       have h2 : (r ++ semiBase64).take 16 = r.take 16 := List.take_append_of_le_length hl
       have h3 : (r ++ semiBase64).drop 16 = r.drop 16 ++ semiBase64 := List.drop_append_of_le_length hl
-      have h4 : endOrSemi (r.drop 16 ++ semiBase64) = endOrSemi (r.drop 16) := by
-        cases r.drop 16 with
-        | nil => decide
-        | cons d t => rfl
+      have h4 : endOrSemi (r.drop 16 ++ semiBase64) = endOrSemi (r.drop 16) := endOrSemi_append _
       simp only [hl, h1, h2, h3, h4, true_and]
       split
       · rfl
